@@ -94,7 +94,7 @@ class Gen:
             if what in ("push", "release"):
                 del self.held[h]
             self.ops.append(op)
-        elif x < 0.49 + w_reg and len(st["pend"]) < 5:
+        elif x < 0.49 + w_reg and len(st["pend"]) < (12 if p == "storm" else 5):
             n = rng.choice([1, 1, 2, 2, 3, 8])
             hid = self.next_hole
             self.next_hole += 1
@@ -132,6 +132,11 @@ class Gen:
             self.next_obj += 1
             self.objs[to] = {"pos": st["pos"], "pend": {}, "bytes": st["bytes"]}
             self.ops.append({"ev": "clone", "o": o, "to": to})
+        elif x < 0.875 + (0.08 if p == "clone" else 0.03) and len(live) >= 2 and not st.get("dead") and (not st["pend"] or rng.random() < 0.15):
+            # clone_from onto another live object (whatever it holds, pending placeholders included)
+            to = rng.choice([q for q in live if q != o])
+            self.objs[to] = {"pos": st["pos"], "pend": {}, "bytes": st["bytes"]}
+            self.ops.append({"ev": "clone_from", "o": o, "to": to})
         elif x < 0.93 + (0.03 if p == "clone" else 0.0) and len(live) < 3:
             to = self.next_obj
             self.next_obj += 1
@@ -247,6 +252,21 @@ def scripted_runs(start):
     ops = [{"ev": "new", "o": 1}, {"ev": "ensure", "o": 1, "n": 70000}, {"ev": "push_anchored", "o": 1, "d": [0, 0, 1000]},
            {"ev": "push", "o": 1, "m": "copy", "d": [0, 247, 130500]}, {"ev": "advance", "o": 1, "n": 500},
            {"ev": "read", "o": 1, "n": 10 ** 6}, {"ev": "drop", "o": 1}]
+    run(ops)
+    # ten placeholders in flight, filled in an order that removes from the middle, the back and the front of the deque
+    ops = [{"ev": "new", "o": 1}]
+    for i in range(1, 11):
+        ops += [{"ev": "register", "o": 1, "n": 2, "id": i}, {"ev": "push", "o": 1, "m": "copy", "d": [0, i, 70]}]
+    for i in (5, 9, 7, 3, 10, 6, 8, 4, 2, 1):
+        ops += [{"ev": "backfill", "o": 1, "id": i, "v": 252 + i % 4}, {"ev": "advance", "o": 1, "n": 30}]
+    ops += [{"ev": "read", "o": 1, "n": 10 ** 6}, {"ev": "drop", "o": 1}]
+    run(ops)
+    # clone_from onto an object that still has a placeholder pending: it becomes a plain snapshot of the source
+    ops = [{"ev": "new", "o": 1}, {"ev": "new", "o": 2}, {"ev": "push", "o": 1, "m": "copy", "d": [0, 0, 40]},
+           {"ev": "push", "o": 2, "m": "copy", "d": [0, 5, 7]}, {"ev": "register", "o": 2, "n": 2, "id": 1},
+           {"ev": "push", "o": 2, "m": "copy", "d": [0, 9, 9]}, {"ev": "clone_from", "o": 1, "to": 2},
+           {"ev": "read", "o": 2, "n": 10}, {"ev": "push", "o": 2, "m": "copy", "d": [0, 40, 5]}, {"ev": "read", "o": 2, "n": 100},
+           {"ev": "read", "o": 1, "n": 100}, {"ev": "drop", "o": 1}, {"ev": "drop", "o": 2}]
     run(ops)
     # take when the very first slice is a pending placeholder
     ops = [{"ev": "new", "o": 1}, {"ev": "register", "o": 1, "n": 2, "id": 1}, {"ev": "push", "o": 1, "m": "copy", "d": [0, 2, 50]},
